@@ -87,14 +87,19 @@ def strategy(tier):
         # the chosen target fails after it was invoked: it raises, or (a
         # coroutine target) ends with CancelledError - no second target may
         # be tried
-        'fault': st.sampled_from([None, None, None, 'raise', 'cancel'])}).map(
+        'fault': st.sampled_from([None, None, None, 'raise', 'cancel']),
+        # the function handler of the judged event is also registered as the
+        # namespace's disconnect handler, with a fixed (old-style) arity, and
+        # a disconnect is dispatched first: nothing of it may stick
+        'shared_legacy': st.booleans()}).map(
             lambda d: _norm(d, cl))
 
 
 def _norm(d, cl):
     c = dict(cl[d['cell']])
     c.update(ns=d['ns'], args=d['args'], method=d['method'],
-             frame=d['frame'], fault=d.get('fault'))
+             frame=d['frame'], fault=d.get('fault'),
+             shared_legacy=d.get('shared_legacy', False))
     if c['reserved']:
         ev = d['revent']
         if ev == 'connect_error' and not c['cls'].endswith('Client'):
@@ -180,7 +185,28 @@ def _run(case, socketio, cls, aio, server, loop):
         obj = getattr(socketio, cls)(handle_sigint=False)
         nsbase = socketio.AsyncClientNamespace if aio else \
             socketio.ClientNamespace
-    if 'h' in present:
+    shared = bool(case.get('shared_legacy')) and 'h' in present and \
+        not case['reserved'] and not case.get('fault') and event != '*'
+    if shared:
+        n_args = len(args)
+
+        if case['coro'] and aio:
+            async def fixed(*a):
+                if len(a) != n_args:
+                    raise TypeError('takes %d positional arguments'
+                                    % n_args)
+                log.append(('h', a))
+                return 'ret-h'
+        else:
+            def fixed(*a):
+                if len(a) != n_args:
+                    raise TypeError('takes %d positional arguments'
+                                    % n_args)
+                log.append(('h', a))
+                return 'ret-h'
+        obj.on(event, fixed, namespace=ns)
+        obj.on('disconnect', fixed, namespace=ns)
+    elif 'h' in present:
         obj.on(event, mk('h'), namespace=ns)
     if 'hc' in present:
         obj.on('*', mk('hc'), namespace=ns)
@@ -234,6 +260,21 @@ def _run(case, socketio, cls, aio, server, loop):
             raise Violation('wrong-arguments', '%s: %s%r, expected %r'
                             % (what, kind, log[0][1], wargs))
 
+    if shared:
+        # an earlier disconnect: (args..., reason) does not fit, the
+        # documented fallback calls the handler without the reason
+        try:
+            run(obj._trigger_event('disconnect', ns, *args, 'a reason'))
+        except Exception as e:
+            v = core.as_violation(e)
+            if v is None:
+                raise
+            raise v
+        if [tuple(x[1]) for x in log] != [tuple(args)]:
+            raise Violation('legacy-disconnect-fallback',
+                            'disconnect dispatched to the old-style handler: '
+                            '%r' % (log,))
+        log.clear()
     faulted = False
     try:
         ret = run(obj._trigger_event(event, ns, *args))
@@ -241,6 +282,11 @@ def _run(case, socketio, cls, aio, server, loop):
         if fault and isinstance(e, RuntimeError) and str(e) == FAULT:
             faulted = True
             ret = None
+        elif shared and isinstance(e, TypeError) and \
+                'positional arguments' in str(e):
+            raise Violation('wrong-arguments', 'the handler was not called '
+                            'with the %d event arguments: %r'
+                            % (len(args), e))
         else:
             v = core.as_violation(e)
             if v is None:
@@ -270,7 +316,8 @@ def _run(case, socketio, cls, aio, server, loop):
     if want is not None and ret != 'ret-' + want[0]:
         raise Violation('return-value-lost', repr(ret))
     # the same event as a real frame (servers, ordinary events)
-    if server and case.get('frame') and not reserved and '?' not in ns:
+    if server and case.get('frame') and not reserved and '?' not in ns \
+            and not shared:
         from ..eio_server import ServerHarness
         h = ServerHarness(aio=aio, loop=loop, server=obj)
         t = h.open()
